@@ -251,6 +251,7 @@ public:
 	template <typename F>
 	bool processIf(F && func)
 	{
+		EVENTPP_VERIF_POINT("q.empty");
 		if(queueList.empty()) {
 			return false;
 		}
